@@ -371,7 +371,7 @@ func extra6C01(c *Ctx) {
 	rule := "C01-R14"
 	m := newSchedModel(c, rule)
 	info := m.info
-	c.Rule(rule, "a finished event is posted only for a request that took a reference: every send on finishedReqCh (also through the channel parameter of useLoadedRunner) sits in a function in which `refCount++` of the runner dominates the send (or the go statement whose goroutine sends) — the finish handler looks the runner up by model path and decrements whatever it finds, so an event for a request that was skipped while queued takes the reference of another request for the same model and the runner is closed under it")
+	c.Rule(rule, "a finished event is posted only for a request that took a reference: every send on finishedReqCh (also through the channel parameter of useLoadedRunner) sits in a function in which `refCount++` of the runner — or the creation of the runner with `refCount: 1`, the loader's initial reference — dominates the send (or the go statement whose goroutine sends) — the finish handler looks the runner up by model path and decrements whatever it finds, so an event for a request that was skipped while queued takes the reference of another request for the same model and the runner is closed under it")
 	n := 0
 	for _, op := range m.opsOn(m.fFinished, true) {
 		n++
@@ -389,8 +389,21 @@ func extra6C01(c *Ctx) {
 		ok := false
 		if at != nil {
 			for _, st := range m.fieldStores(m.fRefCount) {
-				if st.Fn == root && st.Tok == token.INC && g.Dominates(g.Locate(st.Node), at.Loc) {
+				if st.Fn != root {
+					continue
+				}
+				if st.Tok == token.INC && g.Dominates(g.Locate(st.Node), at.Loc) {
 					ok = true
+				}
+				// the loader's initial reference: the runner is created with `refCount: <constant >= 1>`
+				if kv, isKV := st.Node.(*ast.KeyValueExpr); st.Lit && isKV {
+					if v, isC := core.ConstInt(info, kv.Value); isC && v >= 1 {
+						for _, h := range g.Find(func(nd ast.Node) bool { return within(nd, kv) }) {
+							if g.Dominates(h.Loc, at.Loc) {
+								ok = true
+							}
+						}
+					}
 				}
 			}
 		}
